@@ -281,7 +281,46 @@ def r4(ctx):
     ctx.floor(R, 5)
 
 
+def r5(ctx):
+    R = "C15-R5"
+    ctx.rule(R, "a name is never given an address that a registered host already holds: hosts may be registered by a literal address "
+                "inside the simulated subnet, which the name allocator (a bare counter) knows nothing about - so World::register must "
+                "tell Dns about every registered address (a call into Dns with the address, or a write to a Dns field) and the "
+                "allocation must test the candidate against that set before it is inserted for a name")
+    reg = ctx.body(R, "turmoil::world::World::register")
+    told = False
+    if reg:
+        for fb in ctx.w.family(reg.id):
+            for bb, t in fb.calls(re.compile(r"^turmoil::dns::Dns::")):
+                if any(any(a.startswith("arg:2:") for a in Slicer(ctx.w).atoms(fb, x)) for x in t["args"][1:]):
+                    told = True
+            for bb, i, s in fb.all_stmts():
+                if any(f.startswith("turmoil::dns::Dns::") for f in place_fields(s["p"])):
+                    told = True
+            # ... or (an inlined helper) a mutating call on a Dns field that is handed the address
+            for bb, t in fb.calls(re.compile(r"::(insert|insert_full|push|push_back|extend|entry)$")):
+                if t["args"] and any(a.startswith("field:turmoil::dns::Dns::") for a in Slicer(ctx.w).atoms(fb, t["args"][0])) and \
+                        any(any(a.startswith("arg:2:") for a in Slicer(ctx.w).atoms(fb, x)) for x in t["args"][1:]):
+                    told = True
+    tested = False
+    for b in ctx.w.bodies.values():
+        if b.crate != "turmoil" or "dns" not in b.id:
+            continue
+        nx = [bb for bb, t in b.calls("turmoil::ip::IpVersionAddrIter::next")]
+        if not nx:
+            continue
+        for sbb, te, fe, o in guards_on(b, lambda o: o["k"] == "call" and re.search(r"::(contains|contains_key)$", o["t"]["f"])):
+            if any(a.startswith("call:turmoil::ip::IpVersionAddrIter::next") for a in Slicer(ctx.w).atoms(b, o["t"]["args"][1])):
+                tested = True
+    ok = told and tested
+    ctx.inst(R, "names-avoid-registered-addresses", ok, reg.span if reg else "", "registered addresses are reserved and skipped by the name allocator" if ok else
+             "the name allocator never learns which addresses are taken by hosts registered by literal address: sim.client(192.168.0.3, ..) followed by three "
+             "names gives `host-2` the address 192.168.0.3 - two hosts, one address; reverse lookup names the wrong host and registering `host-2` panics")
+    ctx.floor(R, 1)
+
+
 def run(ctx):
+    r5(ctx)
     r1(ctx)
     r2(ctx)
     r3(ctx)
